@@ -50,7 +50,7 @@ func faultBasePrograms(ctx *core.Ctx) []*dsl.Program {
 	}
 	p3 := dsl.P3()
 	for i, p := range p3 {
-		if ctx.Thorough() || i%5 == 0 {
+		if ctx.Thorough() || i%5 == 0 || strings.Contains(p.Name, "inline>inline") || strings.Contains(p.Name, "inline>repinline") {
 			out = append(out, p)
 		}
 	}
@@ -258,6 +258,14 @@ func faultsOf(base *dsl.Program, lay layoutOpt) []Fault {
 			emit("undeclared packet as object type", v, q, dsl.SpanKey{Node: f, Sub: -1}, []string{"NoSuchPacket"}, "unknown", "undeclared", "undefined", "not found")
 		}
 	}
+	// ... and inside every inline object, at every depth
+	for _, path := range inlinePaths(base) {
+		q := base.Clone()
+		f := dsl.Ob("NoSuchPacket", "Inj")
+		c := fieldAt(q, path)
+		c.Sub = append(c.Sub, f)
+		emit("undeclared packet as object type", fmt.Sprintf("inside an inline object at depth %d", len(path)-1), q, dsl.SpanKey{Node: f, Sub: -1}, []string{"NoSuchPacket"}, "unknown", "undeclared", "undefined", "not found")
+	}
 	for pi, pk := range base.Packets {
 		for fi, f := range pk.Fields {
 			if f.Kind != dsl.Match {
@@ -308,4 +316,24 @@ func valueClass(v string) string {
 		return "a boolean"
 	}
 	return "the type " + v
+}
+
+// inlinePaths lists the inline-object fields of a program at every depth, as paths for fieldAt
+// (packet index, field index, sub-field index, ...).
+func inlinePaths(p *dsl.Program) [][]int {
+	var out [][]int
+	var walk func(prefix []int, fs []*dsl.Field)
+	walk = func(prefix []int, fs []*dsl.Field) {
+		for i, f := range fs {
+			if f.Kind == dsl.Inline {
+				path := append(append([]int(nil), prefix...), i)
+				out = append(out, path)
+				walk(path, f.Sub)
+			}
+		}
+	}
+	for pi, pk := range p.Packets {
+		walk([]int{pi}, pk.Fields)
+	}
+	return out
 }
